@@ -38,7 +38,7 @@ def known_for(sigd):
 
 INV = ("CodecByMagic", "StoredInSchema", "KeysAreWritten", "NothingShared")
 PROPS = ("RoundTrip", "V1DomainClosed", "PutAccepted")
-ACTIONS = ("MakeLegacy", "LegacyPut", "OpenLib", "Put", "Get", "Scribble", "Remove")
+ACTIONS = ("MakeLegacy", "LegacyPut", "OpenLib", "Put", "Get", "Scribble", "Remove", "Forget")
 # deviation -> the clause(s) it is documented to break
 DEVIATIONS = {
     "DevV1Ens": ("RoundTrip",),            # pinned tree: v1 ensemble reader without reshape of atomic_charges
@@ -53,6 +53,8 @@ DEVIATIONS = {
     "DevTranspose": ("RoundTrip",),
     "DevMemo": ("CodecByMagic",),          # the process remembers the version of a PATH across remove / re-create
     "DevMemoRT": ("RoundTrip",),           # ... and then loses v2-only fields / cannot read legacy records
+    "DevOverwrite": ("CodecByMagic",),     # pinned tree: overwrite=True on a legacy file keeps the v1 codec for a v2 file
+    "DevOverwriteRT": ("RoundTrip",),
     "DevAlias": ("RoundTrip",),            # the library hands the same mutable object out again (read cache)
 }
 WORKERS = 4
@@ -113,6 +115,28 @@ def reuse_sessions(seed, n):
                 gs = f"{seed}/reuse/{kind}/{ver}/{s}"
                 out.append({"source": "gen", "kind": kind, "ver": ver, "gen_seed": gs, "n": 3, "fresh": True,
                             "before": {"ver": 3 - ver, "gen_seed": gs + "/before", "n": 2}})
+    return out
+
+
+def ctor_sessions(seed, n):
+    """Constructor forms x state of the file they meet: no file / a current library / an empty legacy file / a legacy
+    file with records (independent encoder; for molecules also genuine records of a bundled legacy library), each
+    with and without overwrite=True; then store -> close -> fresh library objects (this process and a new one) read.
+    The version a fresh object detects must be the version the records were written in."""
+    import molli as ml
+    raw = Path(ml.__file__).parent / "files" / "tiny_test_bpa_raw_conf.mlib"
+    out = []
+    for kind in ("mol", "ens"):
+        for pre_ver in (0, 2, 1):
+            for ow in (False, True):
+                for s in range(n):
+                    gs = f"{seed}/ctor/{kind}/{pre_ver}/{int(ow)}/{s}"
+                    ver = 2 if (ow or pre_ver == 0) else pre_ver          # the format of the file the writer ends up with
+                    pre = {"ver": pre_ver, "gen_seed": gs + "/pre", "n": (0 if s == 0 else 2)}   # s = 0: empty file
+                    if kind == "mol" and pre_ver == 1 and s == n - 1 and raw.is_file() and raw.stat().st_size:
+                        pre["raw_file"] = str(raw)
+                    out.append({"source": "gen", "kind": kind, "ver": ver, "gen_seed": gs, "n": 2, "fresh": True,
+                                "pre": pre, "overwrite": ow})
     return out
 
 
@@ -223,9 +247,23 @@ def run_sessions(sources, seed, mutate=None):
                 if "before" in src:
                     b = {**src, **src["before"]}
                     before = (b["ver"],) + legacy_records(b, materialise(b), rnd)
+                pre = None
+                if "pre" in src:
+                    b = {**src, **src["pre"]}
+                    if b.get("raw_file"):
+                        from molli.storage.ukvfile import UKVFile
+                        with UKVFile(b["raw_file"], "r") as u:
+                            pre = (1, [], [(k.decode(), u.get(k)) for k in sorted(u.keys())[:3]])
+                    else:
+                        pre = (b["ver"],) + (legacy_records(b, materialise(b), rnd) if b["ver"] else ([], []))
                 items, legacy = legacy_records(src, materialise(src), rnd)
+                if pre is not None:
+                    # new keys (the old ones may still be in the file); everything goes through the library object
+                    items = [(f"new {j}", o) for j, o in enumerate([o for _, o in items])] + \
+                            [(f"new L{j}", L.build(L.legacy_decode(raw, src["kind"]))) for j, (_, raw) in enumerate(legacy)]
+                    legacy = []
                 ev = lab.session(src["kind"], src["ver"], items, rnd, mutate=mutate, legacy=legacy, before=before,
-                                 fresh=bool(src.get("fresh")))
+                                 fresh=bool(src.get("fresh")), pre=pre, overwrite=bool(src.get("overwrite")))
             except tlc.MachineryError:
                 raise
             except Exception as e:
@@ -234,7 +272,8 @@ def run_sessions(sources, seed, mutate=None):
                 problems.append({"source": src, "error": f"{type(e).__name__}: {e}"[:400],
                                  "where": f"{where.filename}:{where.lineno}"})
                 continue
-            tid = f"t{src.get('sid', i)}-{src['source']}-{src['kind']}-v{src['ver']}" + ("-reuse" if before else "")
+            tid = f"t{src.get('sid', i)}-{src['source']}-{src['kind']}-v{src['ver']}" + ("-reuse" if before else "") + \
+                  (f"-pre{src['pre']['ver']}{'-ow' if src.get('overwrite') else ''}" if "pre" in src else "")
             traces.append({"tid": tid, "ev": ev})
             meta[tid] = src
         lab.finish_fresh()
@@ -320,8 +359,8 @@ def background_models(ev, pool_exec):
                            role="LibCodec: two keys, writer + second read-only object, legacy and current file")
 
     def one(dev):
-        cfg = mc_cfg("PoolDev", "K1", "DevMemo" if dev == "DevMemoRT" else dev)
-        if dev in ("DevMagicAll", "DevAlias", "DevMemoRT"):   # without the structural invariants: the read-back clause itself must catch it
+        cfg = mc_cfg("PoolDev", "K1", dev[:-2] if dev.endswith("RT") else dev)
+        if dev in ("DevMagicAll", "DevAlias", "DevMemoRT", "DevOverwriteRT"):   # without the structural invariants: the read-back clause itself must catch it
             cfg["invariants"] = ("KeysAreWritten",)
         r = expect_violation("MCLibCodec", cfg, DEVIATIONS[dev], tag="c01dev", workers=1)
         if r.violated not in DEVIATIONS[dev]:
@@ -372,6 +411,7 @@ def run(tier, seed, replay_path):
         n_pool = len(sources)
         sources += gen_sessions(seed, n_per=2000 if big else 240, per_lib=4)
         sources += reuse_sessions(seed, n=40 if big else 6)
+        sources += ctor_sessions(seed, n=12 if big else 3)
         if big:
             sources += bundled_sessions(seed, limit=60)
         for i, s in enumerate(sources):
@@ -407,6 +447,7 @@ def run(tier, seed, replay_path):
                 "distinct (abstract written object, schema version) pairs among the accepted traces",
            sessions={"pool": n_pool, "generated": sum(s["source"] == "gen" for s in sources),
                      "path_reused": sum("before" in s for s in sources),
+                     "constructor_forms": sum("pre" in s for s in sources),
                      "bundled": sum(s["source"].startswith("bundled") for s in sources)},
            pool_objects=len(pool), rejected_traces=len(bad), sessions_not_carried_out=len(problems),
            rejected_signatures={" ".join(map(str, k)): v for k, v in seen.items()}, exhaustive=False)
